@@ -30,8 +30,9 @@ PASSES = ["canonicalize", "constant-fold-interp", "test-constant-folding", "test
           "cse"]
 RULE = ("progen func/arith/scf/cf programs over i1,i8,i16,i32,i64,index,f32,f64 (boundary constants, duplicated "
         "pure ops, select/cmp chains, external calls, printf, memref alloc/load/store between duplicate loads; no "
-        "fastmath flags) in four campaigns: general programs with arguments, nsw/nuw-flagged programs, argument-free "
-        "(fully constant, foldable) programs, and 'flat' modules (ops at module top level + test.op sink, the form "
+        "fastmath flags) in five campaigns: general programs with arguments, nsw/nuw-flagged programs, programs ending "
+        "in load; {store same/other cell | call | scf.if/for with a store | nothing}; load of the same cell, "
+        "argument-free (fully constant, foldable) programs, and 'flat' modules (ops at module top level + test.op sink, the form "
         "the constant-folding test passes operate on); plus a deterministic fold table: every arith binary op / "
         "cmpi+cmpf predicate / cast / select / negf on boundary x boundary constant operands, 24 ops per function. "
         "Each program is cloned and run through canonicalize, constant-fold-interp, test-constant-folding, "
@@ -678,7 +679,37 @@ def campaign(name):
                                                   effects=["print"], size=10),
                            flat=1, singles=[["test-constant-folding"], ["test-specialised-constant-folding"],
                                             ["canonicalize"], ["constant-fold-interp"], ["cse"]])
+    if name == "memory":
+        return _with_pipes(_memory_programs(base), singles=[["cse"], ["canonicalize"], ["constant-fold-interp"]])
     raise ValueError(name)
+
+
+def _memory_programs(base):
+    """General programs whose last function additionally ends in  alloc; load m[k]; <between>; load m[k]  with
+    both loaded values returned: duplicate loads with (or without) a memory effect in between."""
+    vt = ["i1", "i8", "i16", "i32", "i64", "index", "f32", "f64"]
+
+    def build(r, t, n, k, k2, fill, mid):
+        ld = {"op": "load", "t": t, "n": n, "m": 0, "i": {"c": k}}
+        # the stored value is a constant that differs from the initial cell contents (value refs: 0 = the first
+        # load, 1 = this constant)
+        bs = progen.boundary_float_bits(t) if _is_f(t) else progen.boundary_ints(t, 64)
+        other = {"op": "const", "t": t, "v": bs[(fill + 1) % len(bs)]}
+        st_same = {"op": "store", "t": t, "n": n, "m": 0, "i": {"c": k}, "v": 1}
+        st_other = {"op": "store", "t": t, "n": n, "m": 0, "i": {"c": k2}, "v": 1}
+        between = [[st_same], [st_other], [{"op": "call", "k": 0, "args": [], "res": []}],
+                   [{"op": "if", "c": 0, "res": [], "then": [st_same], "ty": [], "else": [], "ey": []}], [],
+                   [{"op": "for", "t": "index", "lb": {"c": 0}, "ub": {"c": 2}, "step": {"c": 1}, "iters": [],
+                     "body": [st_same], "y": []}],
+                   [{"op": "print", "k": 0, "args": [[t, 0]]}, st_same, st_other]][mid]
+        funcs = [dict(f) for f in r["funcs"]]
+        f = funcs[-1]
+        f["body"] = (list(f.get("body") or []) + [other, {"op": "alloc", "t": t, "n": n, "v": fill}, ld] + between
+                     + [dict(ld)])
+        f["ret"] = [[t, 0], [t, 1]] + list(f.get("ret") or [])[:1]
+        return dict(r, funcs=funcs)
+    return st.builds(build, progen.program_recipes(base, size=6), st.sampled_from(vt), st.sampled_from([1, 2, 4]),
+                     st.integers(0, 3), st.integers(0, 3), st.integers(0, 20), st.integers(0, 6))
 
 
 # ---- deterministic fold table ---------------------------------------------------------------
@@ -880,6 +911,6 @@ def replay(h, recipe):
 def checks(h):
     _init()
     fold_table(h)
-    for salt, (name, q, t) in enumerate([("general", 220, 6000), ("const", 140, 4000), ("flat", 70, 2000),
-                                         ("flags", 50, 2000)]):
+    for salt, (name, q, t) in enumerate([("general", 200, 6000), ("const", 140, 4000), ("flat", 70, 2000),
+                                         ("flags", 40, 1500), ("memory", 50, 1500)]):
         h.hyp(name, campaign(name), lambda r, name=name: run_case(h, r, name), h.scale(q, t), 1 + salt)
